@@ -209,3 +209,14 @@ fn sketch_new_small_sizes() {
         Err(_) => ck!(size == 0, "[C05.ctor] only size 0 is rejected"),
     }
 }
+
+// negative control: MUST fail (see harness_raw.rs)
+#[kani::proof]
+#[kani::unwind(10)]
+fn negctl_increment_is_never_saturated() {
+    let mut s = any_sketch();
+    let h: u64 = kani::any();
+    let before = s.estimate(h);
+    s.increment(h);
+    ck!(s.estimate(h) == before + 1, "[negctl] increment always raises the estimate by one (false: counters saturate at 15)");
+}
